@@ -15,7 +15,7 @@ import tempfile
 import time
 
 from . import pristine
-from .generator import splitmix64
+from .generator import splitmix64, NCLASSES
 from .ops import OPS
 
 VERIF = os.path.dirname(os.path.dirname(os.path.abspath(__file__)))
@@ -28,7 +28,7 @@ def evidence_dir():
 
 def replay_dir():
     return os.environ.get("HTSIM_REPLAY_DIR") or os.path.join(VERIF, "replays")
-BATCHES = ["K0", "K1", "K2", "K3", "K4", "K5", "K6", "K7", "K8"]
+BATCHES = ["K0", "K1", "K2", "K3", "K4", "K5", "K6", "K7", "K8", "K9"]
 TABLES = {2: ["all"], 3: ["all", "linear"], 4: ["all", "linear", "star", "cycle"],
           5: ["all", "linear", "star", "cycle", "T", "Q"], 6: ["all", "linear", "star", "ladder", "E", "H", "Q"]}
 READ_EXCS = ["FileNotFoundError", "PermissionError", "OSError", "UnicodeDecodeError", "MemoryError"]
@@ -42,15 +42,17 @@ BATCH_DOC = {
     "K7": "scripted table tours: 9-20 distinct tables in one process with re-visits of recent and old ones, all judged",
     "K8": "scripted hammer: ops of the alphabet in turn - the same request 20-150 times, or 20-120 different requests of its "
           "family and then the earliest again - then disturb / re-ask (counters, thresholds, periodic clean-ups, growing caches)",
+    "K9": "scripted entry sweeps: other stabilizer tables of the same qubit count loaded first (one other before / after the "
+          "target, or all in a seeded order), then class ids of the target table looked up and parsed one by one, all judged",
     "K6": "scripted per-table fault sweep: for EVERY shipped table, cold - read failure of each kind / interrupt at "
           "seeded points of the load incl. the last line event - then ask again and ask siblings",
 }
 PLAN = {
     # runs per batch; R2 keys per hash seed; R3 replays; determinism seeds; soft wall cap (s)
     # K5: repetitions per op; K6: (read faults per table, interrupts per table)
-    "quick": {"runs": {"K0": 80, "K1": 200, "K2": 100, "K3": 100, "K4": 120}, "k5_reps": 3, "k6": (2, 4), "k7": 16, "k8": 58,
+    "quick": {"runs": {"K0": 80, "K1": 200, "K2": 100, "K3": 100, "K4": 120}, "k5_reps": 3, "k6": (2, 4), "k7": 16, "k8": 58, "k9": (1, 64),
               "r2": 48, "r2_single": 3, "r3": 12, "det": 20, "cap": 420},
-    "thorough": {"runs": {"K0": 3000, "K1": 9000, "K2": 5000, "K3": 5000, "K4": 6000}, "k5_reps": 40, "k6": (5, 60), "k7": 600, "k8": 1160,
+    "thorough": {"runs": {"K0": 3000, "K1": 9000, "K2": 5000, "K3": 5000, "K4": 6000}, "k5_reps": 40, "k6": (5, 60), "k7": 600, "k8": 1160, "k9": (14, 96),
                  "r2": 600, "r2_single": 24, "r3": 200, "det": 64, "cap": 3300},
 }
 CHUNK = 4
@@ -297,9 +299,39 @@ class Check:
             out.append({"mode": "generate", "batch": "K8", "i": i, "tier": self.tier, "op": opname,
                         "n": 2 + (i + lap + self.seed) % 5, "kmode": kmode,
                         "seed": run_seed(self.seed, self.tier, "K8", i), "keep": i < 4, "want_events": True})
+        # K9: every stabilizer table x chunks of its class ids; laps repeat the sweep with other load orders
+        laps, chunk = self.plan["k9"]
+        laps = max(1, int(round(laps * self.scale)))
+        i = 0
+        for lap in range(laps):
+            for n, conns in TABLES.items():
+                if n not in NCLASSES:
+                    continue
+                for t, c in enumerate(conns):
+                    others = [x for x in conns if x != c]
+                    ids_all = list(range(NCLASSES[n]))
+                    for k, lo in enumerate(range(0, len(ids_all), chunk)):
+                        if self.tier == "quick" and n == 6 and (k + t + self.seed) % 3 != 0:
+                            continue        # quick: a third of the 6-qubit chunks per run of the check (moves with the seed)
+                        rr = random.Random(run_seed(self.seed, self.tier, "K9o", i))
+                        if not others:
+                            preload = [c] if rr.random() < 0.5 else []
+                        else:
+                            x = rr.choice(others)
+                            style = rr.randrange(3)
+                            if style == 0:
+                                preload = [c, x]                 # target first, ONE other last ("last loaded wins")
+                            elif style == 1:
+                                preload = [x, c] if rr.random() < 0.5 else [x]      # other first ("first loaded wins")
+                            else:
+                                preload = rr.sample(conns, len(conns))             # all of them in a seeded order
+                        out.append({"mode": "generate", "batch": "K9", "i": i, "tier": self.tier, "n": n, "conn": c,
+                                    "preload": preload, "ids": ids_all[lo:lo + chunk],
+                                    "seed": run_seed(self.seed, self.tier, "K9", i), "keep": i < 4, "want_events": True})
+                        i += 1
         # interleave batches so that a truncated run still covers all of them; the potentially long templates
         # (5/6 qubits) go first so that they do not form a tail
-        out.sort(key=lambda j: (0 if (j["batch"] in ("K7", "K8") or (j["batch"] == "K5" and j.get("n", 0) >= 5)) else 1, j["i"], j["batch"]))
+        out.sort(key=lambda j: (0 if (j["batch"] in ("K7", "K8", "K9") or (j["batch"] == "K5" and j.get("n", 0) >= 5)) else 1, j["i"], j["batch"]))
         return out
 
     def run_batches(self, pool):
